@@ -25,9 +25,9 @@ type C11Step struct {
 }
 
 type C11Scn struct {
-	Allow    []int       `json:"allow"`  // nil = no allow-list; else indices into the pool
+	Allow    []int       `json:"allow"` // nil = no allow-list; else indices into the pool
 	HasAllow bool        `json:"hasallow"`
-	Default4 int         `json:"default4"` // backend default cost in quarters (>=1)
+	Default4 int         `json:"default4"`           // backend default cost in quarters (>=1)
 	Override map[int]int `json:"override,omitempty"` // pool index -> cost quarters
 	Steps    []C11Step   `json:"steps"`
 }
@@ -152,8 +152,9 @@ func execC11(b []byte) vx.Verdict {
 
 	var sessions []*c11Sess
 	connected := map[string]*c11Sess{} // model: id -> session
+	var openSpec = vx.LinkSpec{Ordered: true}
 	open := func() *c11Sess {
-		p := vx.NewSessionPair(vx.LinkSpec{Ordered: true}, nil)
+		p := vx.NewSessionPair(openSpec, nil)
 		c := &c11Sess{pair: p, state: "new", opened: time.Now()}
 		go c.reader()
 		if !be.Offer(p.A, 5*time.Second) {
@@ -294,6 +295,83 @@ func execC11(b []byte) vx.Verdict {
 		return expectRejected(c, why, step)
 	}
 
+	raceOnce := func(k int, pid string, i int) *vx.Verdict {
+		var racers []*c11Sess
+		openSpec = vx.LinkSpec{Ordered: false} // fewer hand-offs between the harness and the node: tighter simultaneity
+		defer func() { openSpec = vx.LinkSpec{Ordered: true} }()
+		for j := 0; j < k; j++ {
+			c := open()
+			if c == nil {
+				{
+					v := vx.Inconclusive("backend refused session")
+					return &v
+				}
+			}
+			c.id = pid
+			racers = append(racers, c)
+		}
+		ok, why := admissible(pid)
+		start := make(chan struct{})
+		var wg sync.WaitGroup
+		for _, c := range racers {
+			wg.Add(1)
+			h := hello(c, pid)
+			go func(c *c11Sess, h []byte) { defer wg.Done(); <-start; _ = c.pair.B.Send(h) }(c, h)
+		}
+		close(start)
+		wg.Wait()
+		labels = append(labels, fmt.Sprintf("race-of-%d", k))
+		nontrivial = true
+		if !ok {
+			for _, c := range racers {
+				if v := expectRejected(c, why, i); v != nil {
+					return v
+				}
+			}
+			return nil
+		}
+		// exactly one of the racers is established, the others are rejected
+		open := func() []*c11Sess {
+			var o []*c11Sess
+			for _, c := range racers {
+				if !c.closedBySUT() {
+					o = append(o, c)
+				}
+			}
+			return o
+		}
+		msg := vx.WaitFor(20*time.Second, 5*time.Millisecond, func() string {
+			if n := len(open()); n != 1 {
+				return fmt.Sprintf("%d of %d simultaneous sessions are still open", n, k)
+			}
+			return ""
+		})
+		if msg != "" {
+			{
+				v := vx.Violation("one-per-id", "C11/twins", "step %d: %d simultaneous sessions announcing %q: %s (exactly one must survive, the others must be rejected)", i, k, pid, msg)
+				// more than one survivor 20 s after the handshakes, confirmed once more after a pause, is a fact about the
+				// node's state, not a deadline artefact
+				time.Sleep(2 * time.Second)
+				v.Certain = len(open()) > 1
+				return &v
+			}
+		}
+		time.Sleep(20 * time.Millisecond)
+		if n := len(open()); n != 1 {
+			{
+				v := vx.Violation("one-per-id", "C11/twins", "step %d: %d sessions announcing %q open after settling", i, n, pid)
+				return &v
+			}
+		}
+		for _, c := range racers {
+			c.state = "closed"
+		}
+		win := open()[0]
+		win.state = "established"
+		connected[pid] = win
+		return nil
+	}
+
 	for i, st := range s.Steps {
 		if len(sessions) == 0 && st.K != "open" && st.K != "race" {
 			if open() == nil {
@@ -399,68 +477,27 @@ func execC11(b []byte) vx.Verdict {
 			}
 			c.state = "closed"
 		case "race":
-			if len(sessions) > 24 {
+			if len(sessions) > 200 {
 				continue
 			}
-			k := 2 + st.Cost4%7 // 2..8 simultaneous sessions announcing the same ID
-			var racers []*c11Sess
-			for j := 0; j < k; j++ {
-				c := open()
-				if c == nil {
-					return vx.Inconclusive("backend refused session")
-				}
-				c.id = pid
-				racers = append(racers, c)
-			}
-			ok, why := admissible(pid)
-			start := make(chan struct{})
-			var wg sync.WaitGroup
-			for _, c := range racers {
-				wg.Add(1)
-				h := hello(c, pid)
-				go func(c *c11Sess, h []byte) { defer wg.Done(); <-start; _ = c.pair.B.Send(h) }(c, h)
-			}
-			close(start)
-			wg.Wait()
-			labels = append(labels, fmt.Sprintf("race-of-%d", k))
-			nontrivial = true
-			if !ok {
-				for _, c := range racers {
-					if v := expectRejected(c, why, i); v != nil {
-						return *v
+			k := 2 + st.Cost4%15 // 2..16 simultaneous sessions announcing the same ID
+			rounds := 1 + st.Fwd%6
+			for round := 0; round < rounds; round++ {
+				if round > 0 {
+					// retire the previous winner and wait until the node has forgotten it, then race again
+					if w := connected[pid]; w != nil {
+						w.pair.Cut()
+						w.state = "closed"
+						delete(connected, pid)
+						if v := checkPicture(i); v != nil {
+							return *v
+						}
 					}
 				}
-				break
-			}
-			// exactly one of the racers is established, the others are rejected
-			open := func() []*c11Sess {
-				var o []*c11Sess
-				for _, c := range racers {
-					if !c.closedBySUT() {
-						o = append(o, c)
-					}
+				if v := raceOnce(k, pid, i); v != nil {
+					return *v
 				}
-				return o
 			}
-			msg := vx.WaitFor(20*time.Second, 5*time.Millisecond, func() string {
-				if n := len(open()); n != 1 {
-					return fmt.Sprintf("%d of %d simultaneous sessions are still open", n, k)
-				}
-				return ""
-			})
-			if msg != "" {
-				return vx.Violation("one-per-id", "C11/twins", "step %d: %d simultaneous sessions announcing %q: %s (exactly one must survive, the others must be rejected)", i, k, pid, msg)
-			}
-			time.Sleep(20 * time.Millisecond)
-			if n := len(open()); n != 1 {
-				return vx.Violation("one-per-id", "C11/twins", "step %d: %d sessions announcing %q open after settling", i, n, pid)
-			}
-			for _, c := range racers {
-				c.state = "closed"
-			}
-			win := open()[0]
-			win.state = "established"
-			connected[pid] = win
 		}
 		if v := checkPicture(i); v != nil {
 			return *v
